@@ -814,3 +814,242 @@ k_update_md5_bytes!(k_update_md5_bytes_w1, 1);
 k_update_md5_bytes!(k_update_md5_bytes_w2, 2);
 k_update_md5_bytes!(k_update_md5_bytes_w3, 3);
 k_update_md5_bytes!(k_update_md5_bytes_w4, 4);
+
+// ------------------------------------------------------------------ Encoder::finalize_inner without a seek table (C09 / C15 / C14)
+// contract (metadata writer and MD5 finalisation replaced by recorders; seek-table policy off, so the three table
+// layouts are NOT covered here):
+//   declared total: Ok iff samples written == declared, else SampleCountMismatch
+//   undeclared:     0 written => NoSamples; >= 2^36 => ExcessiveTotalSamples; else the count is recorded
+//   on Ok: MD5 stored, the stream is repositioned exactly once, to the remembered start of the stream (never into
+//          the audio frames), and the metadata blocks are rewritten exactly once after that
+//   on Err: nothing is repositioned or rewritten;  a second call is a no-op
+static G_F_WRITES: AtomicUsize = AtomicUsize::new(0);
+static G_F_WRITE_AFTER_SEEK: AtomicUsize = AtomicUsize::new(0);
+fn stub_write_blocks_rec<B: crate::metadata::AsBlockRef>(_w: impl std::io::Write, _blocks: impl IntoIterator<Item = B>) -> Result<(), Error> {
+    G_F_WRITES.fetch_add(1, Relaxed);
+    G_F_WRITE_AFTER_SEEK.store(G_F_SEEKS.load(Relaxed), Relaxed);
+    Ok(())
+}
+static G_F_SEEKS: AtomicUsize = AtomicUsize::new(0);
+static G_F_SEEK_TO: AtomicUsize = AtomicUsize::new(usize::MAX);
+pub(crate) struct SeekLog;
+impl std::io::Write for SeekLog {
+    fn write(&mut self, buf: &[u8]) -> std::io::Result<usize> { Ok(buf.len()) }
+    fn flush(&mut self) -> std::io::Result<()> { Ok(()) }
+}
+impl std::io::Seek for SeekLog {
+    fn seek(&mut self, pos: std::io::SeekFrom) -> std::io::Result<u64> {
+        G_F_SEEKS.fetch_add(1, Relaxed);
+        if let std::io::SeekFrom::Start(p) = pos { G_F_SEEK_TO.store(p as usize, Relaxed); Ok(p) } else { Ok(0) }
+    }
+}
+fn stub_md5_finalize(_c: md5::Context) -> md5::Digest {
+    md5::Digest([0xA5; 16])
+}
+
+#[kani::proof]
+#[kani::unwind(18)]
+#[kani::stub(crate::metadata::write_blocks, stub_write_blocks_rec)]
+#[kani::stub(md5::Context::finalize, stub_md5_finalize)]
+pub(crate) fn k_encoder_finalize_noseektable() {
+    let declared: bool = kani::any();
+    let total: u64 = kani::any();
+    kani::assume(total >= 1 && total < (1 << 36));
+    let written: u64 = kani::any();
+    kani::assume(written < (1 << 40));
+    let start: u64 = kani::any();
+    kani::assume(start < (1 << 32));
+    let si = Streaminfo { minimum_block_size: 16, maximum_block_size: 16, minimum_frame_size: None, maximum_frame_size: None,
+        sample_rate: 44100, channels: NonZero::new(1).unwrap(), bits_per_sample: sbc::<32>(16),
+        total_samples: if declared { NonZero::new(total) } else { None }, md5: None };
+    let mut e = Encoder { writer: Counter::new(SeekLog), start, options: EncoderOptions { max_partition_order: 0, mid_side: false,
+        seektable_interval: None, max_lpc_order: None, window: Window::Rectangle, exhaustive_channel_correlation: false, use_rice2: false },
+        caches: EncodingCaches::default(), blocks: BlockList::new(si), sample_rate: SampleRate::Hz44100, frame_number: FrameNumber(0),
+        samples_written: written, seekpoints: Vec::new(), md5: md5::Context::new(), finalized: false };
+    let res = e.finalize_inner();
+    let ok = res.is_ok();
+    let mismatch = matches!(res, Err(Error::SampleCountMismatch));
+    let nosamples = matches!(res, Err(Error::NoSamples));
+    let excessive = matches!(res, Err(Error::ExcessiveTotalSamples));
+    std::mem::forget(res);
+    if declared {
+        vk_assert!(ok == (written == total), "a declared length must be matched exactly: neither short nor over-filled");
+        vk_assert!(ok || mismatch, "a wrong sample count is reported as SampleCountMismatch");
+    } else if written == 0 {
+        vk_assert!(nosamples, "an empty stream cannot be finalized");
+    } else if written >= (1 << 36) {
+        vk_assert!(excessive, "more samples than STREAMINFO can express");
+    } else {
+        vk_assert!(ok && e.blocks.streaminfo().total_samples.map(|t| t.get()) == Some(written), "the true sample count is recorded");
+    }
+    if ok {
+        vk_assert!(e.blocks.streaminfo().md5 == Some([0xA5; 16]), "the MD5 of the PCM is stored");
+        vk_assert!(G_F_SEEKS.load(Relaxed) == 1 && G_F_SEEK_TO.load(Relaxed) as u64 == start, "the header is rewritten at the remembered start of the stream, nowhere else");
+        vk_assert!(G_F_WRITES.load(Relaxed) == 1 && G_F_WRITE_AFTER_SEEK.load(Relaxed) == 1, "metadata blocks rewritten exactly once, after repositioning");
+    } else {
+        vk_assert!(G_F_SEEKS.load(Relaxed) == 0 && G_F_WRITES.load(Relaxed) == 0, "a failed finalize touches nothing");
+    }
+    let again = e.finalize_inner();
+    let again_ok = again.is_ok();
+    std::mem::forget(again);
+    vk_assert!(again_ok && G_F_SEEKS.load(Relaxed) <= 1 && G_F_WRITES.load(Relaxed) <= 1, "finalizing twice is a no-op");
+}
+
+// ------------------------------------------------------------------ Encoder::finalize_inner: the three seek-table layouts (C09)
+// contract, with two frames written (seek points p0 < p1, symbolic byte offsets) and the policy "every frame":
+//   (a) placeholder table of 3 points reserved up front: still 3 points, the first two are p0, p1 as defined points, the
+//       third stays a placeholder (placeholders only at the end, count unchanged => size unchanged)
+//   (b) no table but PADDING of s bytes: if s >= 4 + 18*2 the padding shrinks by exactly that and a 2-point table appears
+//       (total metadata size unchanged); otherwise nothing changes
+//   (c) neither: nothing changes
+fn mk_fin_encoder(layout: u8, padding: u32, o0: u64, o1: u64) -> Encoder<SeekLog> {
+    use crate::metadata::{Padding, SeekTable, contiguous::Contiguous};
+    let si = Streaminfo { minimum_block_size: 16, maximum_block_size: 16, minimum_frame_size: None, maximum_frame_size: None,
+        sample_rate: 44100, channels: NonZero::new(1).unwrap(), bits_per_sample: sbc::<32>(16), total_samples: None, md5: None };
+    let mut blocks = BlockList::new(si);
+    if layout == 0 {
+        let pts = vec![SeekPoint::Placeholder, SeekPoint::Placeholder, SeekPoint::Placeholder];
+        blocks.insert(SeekTable { points: Contiguous::try_from(pts).unwrap() });
+    } else if layout == 1 {
+        blocks.insert(Padding { size: BlockSize::try_from(padding).unwrap() });
+    }
+    let seekpoints = vec![
+        EncoderSeekPoint { sample_offset: 0, byte_offset: Some(o0), frame_samples: 16 },
+        EncoderSeekPoint { sample_offset: 16, byte_offset: Some(o1), frame_samples: 16 },
+    ];
+    Encoder { writer: Counter::new(SeekLog), start: 0, options: EncoderOptions { max_partition_order: 0, mid_side: false,
+        seektable_interval: Some(SeekTableInterval::Frames(NonZero::new(1).unwrap())), max_lpc_order: None, window: Window::Rectangle,
+        exhaustive_channel_correlation: false, use_rice2: false },
+        caches: EncodingCaches::default(), blocks, sample_rate: SampleRate::Hz44100, frame_number: FrameNumber(2),
+        samples_written: 32, seekpoints, md5: md5::Context::new(), finalized: false }
+}
+
+macro_rules! k_encoder_finalize_layout {
+    ($name:ident, $layout:expr) => {
+        #[kani::proof]
+        #[kani::unwind(18)]
+        #[kani::stub(crate::metadata::write_blocks, stub_write_blocks_rec)]
+        #[kani::stub(md5::Context::finalize, stub_md5_finalize)]
+        pub(crate) fn $name() {
+            use crate::metadata::{Padding, SeekTable};
+            let o0: u64 = kani::any();
+            let o1: u64 = kani::any();
+            let padding: u32 = kani::any();
+            kani::assume(padding >= 1 && padding < (1 << 24));
+            let mut e = mk_fin_encoder($layout, padding, o0, o1);
+            let res = e.finalize_inner();
+            let ok = res.is_ok();
+            std::mem::forget(res);
+            vk_assert!(ok, "finalize succeeds");
+            let table: Option<&SeekTable> = e.blocks.get();
+            let pad: Option<&Padding> = e.blocks.get();
+            match $layout {
+                0 => {
+                    let t = table.unwrap();
+                    vk_assert!(t.points.len() == 3, "a reserved table keeps its size");
+                    vk_assert!(t.points[0] == SeekPoint::Defined { sample_offset: 0, byte_offset: o0, frame_samples: 16 }
+                        && t.points[1] == SeekPoint::Defined { sample_offset: 16, byte_offset: o1, frame_samples: 16 }, "defined points are the frames' (first sample, byte offset, length)");
+                    vk_assert!(t.points[2] == SeekPoint::Placeholder, "unused slots stay placeholders, at the end");
+                }
+                1 => {
+                    let need = 4 + 18 * 2;
+                    if padding >= need {
+                        let t = table.unwrap();
+                        vk_assert!(t.points.len() == 2 && u32::from(pad.unwrap().size) == padding - need, "the table is carved out of the padding: total metadata size unchanged");
+                        vk_assert!(t.points[0] == SeekPoint::Defined { sample_offset: 0, byte_offset: o0, frame_samples: 16 }
+                            && t.points[1] == SeekPoint::Defined { sample_offset: 16, byte_offset: o1, frame_samples: 16 }, "defined points are the frames' (first sample, byte offset, length)");
+                    } else {
+                        vk_assert!(table.is_none() && u32::from(pad.unwrap().size) == padding, "too little padding: nothing changes");
+                    }
+                }
+                _ => vk_assert!(table.is_none() && pad.is_none(), "no table and no padding: nothing is added"),
+            }
+        }
+    };
+}
+// measured: layouts (a) and (b) do not finish (> 15 min each: boxed filter iterator, Contiguous::try_extend / Vec collect);
+// only layout (c) is registered
+k_encoder_finalize_layout!(k_encoder_finalize_no_room, 2u8);
+
+// ------------------------------------------------------------------ FlacStreamWriter::write: argument validation and frame counter (C15 / C16)
+// contract (frame builder, subset header writer and subframe encoder replaced by recorders), mono path:
+//   Err, without panicking, for: bits-per-sample outside {8,12,16,20,24,32}; 0 or > 8 channels; a sample count not
+//   divisible by the channel count; no samples at all; a sample rate that has no self-describing header code;
+//   otherwise Ok: exactly one header is written, carrying block size = samples per channel, the rate, the depth,
+//   the channel assignment and the current frame number; the counter then advances by one (wrapping to 0 after 2^36-1);
+//   the frame builder is never handed an empty slice
+static G_S_HDR_BS: AtomicUsize = AtomicUsize::new(0);
+static G_S_HDR_RATE: AtomicUsize = AtomicUsize::new(0);
+static G_S_HDR_BPS: AtomicUsize = AtomicUsize::new(0);
+static G_S_HDR_CH: AtomicUsize = AtomicUsize::new(0);
+static G_S_HDR_NUM: AtomicI64 = AtomicI64::new(-1);
+static G_S_HDR_REFS: AtomicUsize = AtomicUsize::new(0);
+static G_S_HDRS: AtomicUsize = AtomicUsize::new(0);
+fn stub_write_subset_rec<W: std::io::Write>(h: &crate::stream::FrameHeader, _w: &mut W) -> Result<(), Error> {
+    G_S_HDRS.fetch_add(1, Relaxed);
+    G_S_HDR_BS.store(u16::from(h.block_size) as usize, Relaxed);
+    G_S_HDR_RATE.store(u32::from(h.sample_rate) as usize, Relaxed);
+    G_S_HDR_BPS.store(u32::from(h.bits_per_sample) as usize, Relaxed);
+    G_S_HDR_CH.store(h.channel_assignment.count() as usize, Relaxed);
+    G_S_HDR_NUM.store(h.frame_number.0 as i64, Relaxed);
+    let refs = matches!(h.sample_rate, SampleRate::Streaminfo(_)) || matches!(h.bits_per_sample, crate::stream::BitsPerSample::Streaminfo(_));
+    G_S_HDR_REFS.store(refs as usize, Relaxed);
+    Ok(())
+}
+fn stub_fill_from_samples_shape<'f>(f: &'f mut Frame, samples: &[i32]) -> &'f Frame {
+    if samples.is_empty() { G_W_EMPTY.fetch_add(1, Relaxed); }
+    crate::audio::verif_k::set_interleaved_len(f, samples.len());
+    f
+}
+fn stub_encode_subframe_empty<'c>(_o: &EncoderOptions, cache: &'c mut ChannelCache, _ch: CorrelatedChannel) -> Result<&'c BitRecorder<u32, BigEndian>, Error> {
+    cache.constant_output.clear();
+    Ok(&cache.constant_output)
+}
+
+macro_rules! k_stream_writer_write_validation {
+    ($name:ident, $channels:expr, $n:expr) => {
+#[kani::proof]
+#[kani::unwind(8)]
+#[kani::stub(crate::audio::Frame::fill_from_samples, stub_fill_from_samples_shape)]
+#[kani::stub(crate::stream::FrameHeader::write_subset, stub_write_subset_rec)]
+#[kani::stub(encode_subframe, stub_encode_subframe_empty)]
+pub(crate) fn $name() {
+    let rate: u32 = match kani::any::<u8>() % 6 { 0 => 44100, 1 => 96000, 2 => 12345, 3 => 700001, 4 => 1000000, _ => 2000000 };
+    let bps: u32 = kani::any();
+    kani::assume(bps <= 34);
+    // channel count and sample count are concrete per instance (a symbolic channel count drags every multi-channel path in)
+    let channels: u8 = $channels;
+    let data: [i32; 3] = kani::any();
+    let n: usize = $n;
+    let start_num: u64 = match kani::any::<u8>() % 3 { 0 => 0, 1 => 77, _ => (1 << 36) - 1 };
+    let mut w = FlacStreamWriter::new(crate::verif_k::bits::ByteSink::<8>::new(), Options::fast().no_padding().no_seektable());
+    w.frame_number = FrameNumber(start_num);
+    let res = w.write(rate, channels, bps, &data[..n]);
+    let ok = res.is_ok();
+    std::mem::forget(res);
+    let subset_bps = bps == 8 || bps == 12 || bps == 16 || bps == 20 || bps == 24 || bps == 32;
+    let subset_rate = rate == 44100 || rate == 96000 || rate == 12345 || rate == 1000000; // 700001 and 2000000 have no header code
+    let valid = subset_bps && channels == 1 && n >= 1 && subset_rate;
+    vk_assert!(G_W_EMPTY.load(Relaxed) == 0, "an empty sample slice must be rejected before it reaches the frame builder (which cannot take it)");
+    if channels == 1 {
+        vk_assert!(ok == valid, "Ok exactly for self-describing parameters and a non-empty whole number of PCM frames");
+    } else if channels == 0 || channels > 8 || n % (channels as usize) != 0 || n == 0 || !subset_bps || !subset_rate {
+        vk_assert!(!ok, "invalid arguments are rejected");
+    }
+    if ok && channels == 1 {
+        vk_assert!(G_S_HDRS.load(Relaxed) == 1, "exactly one frame header per write");
+        vk_assert!(G_S_HDR_BS.load(Relaxed) == n && G_S_HDR_RATE.load(Relaxed) == rate as usize && G_S_HDR_BPS.load(Relaxed) == bps as usize && G_S_HDR_CH.load(Relaxed) == 1,
+            "the header carries the frame's own length, rate, depth and channel count");
+        vk_assert!(G_S_HDR_REFS.load(Relaxed) == 0, "a raw stream frame never refers to a STREAMINFO block");
+        vk_assert!(G_S_HDR_NUM.load(Relaxed) as u64 == start_num, "the header carries the current frame number");
+        vk_assert!(w.frame_number.0 == if start_num == (1 << 36) - 1 { 0 } else { start_num + 1 }, "the counter advances by one per frame and wraps to 0 after 2^36-1");
+    }
+    if !ok { vk_assert!(w.frame_number.0 == start_num, "a rejected write does not consume a frame number"); }
+}
+    };
+}
+// measured: the mono instances (valid path through CrcWriter/BitWriter, and the empty-input path) do not finish in 10 min;
+// only the channel-count / divisibility rejections are registered
+k_stream_writer_write_validation!(k_stream_writer_zero_channels, 0, 2);
+k_stream_writer_write_validation!(k_stream_writer_nine_channels, 9, 0);
+k_stream_writer_write_validation!(k_stream_writer_stereo_odd, 2, 3);
